@@ -258,6 +258,78 @@ def tr_sort(mod, fn):
     raise TranslateError('sorted key not recognised: %s' % ast.dump(lam.body))
 
 
+def split_tuple_assignments(fn):
+    """`a, b = x, y` -> `a = x; b = y` when no later element reads an earlier target (same evaluation order)"""
+    class T(ast.NodeTransformer):
+        def visit_Assign(self, n):
+            self.generic_visit(n)
+            if len(n.targets) == 1 and isinstance(n.targets[0], ast.Tuple) and isinstance(n.value, ast.Tuple) \
+                    and len(n.targets[0].elts) == len(n.value.elts) > 1 and all(isinstance(t, ast.Name) for t in n.targets[0].elts):
+                seen = set()
+                for t, v in zip(n.targets[0].elts, n.value.elts):
+                    if seen & {x.id for x in ast.walk(v) if isinstance(x, ast.Name)}:
+                        return n
+                    seen.add(t.id)
+                return [ast.copy_location(ast.Assign(targets=[t], value=v), n) for t, v in zip(n.targets[0].elts, n.value.elts)]
+            return n
+    return ast.fix_missing_locations(T().visit(fn))
+
+
+def normalise_walk(fn):
+    """alpha-normalisation of the member-path walk of simple_dict_to_object: the locals are identified by what
+    they are bound to (not by their names) and renamed to the names the recognisers below use; tuple assignments
+    are split.  A local whose role cannot be identified uniquely, or a renaming that would capture another name,
+    is refused."""
+    import copy
+    fn = split_tuple_assignments(copy.deepcopy(fn))
+    U = ast.unparse
+    loops = [n for n in ast.walk(fn) if isinstance(n, ast.For) and isinstance(n.target, ast.Name)
+             and U(n.iter) == 'member.path[:-1]']
+    need(len(loops) == 1, 'simple_dict_to_object: one loop over member.path[:-1] expected, got %d' % len(loops))
+    loop = loops[0]
+    P = loop.target.id
+    assigns = [n for n in ast.walk(fn) if isinstance(n, ast.Assign) and len(n.targets) == 1 and isinstance(n.targets[0], ast.Name)]
+    inloop = [n for n in ast.walk(loop) if isinstance(n, ast.Assign) and len(n.targets) == 1 and isinstance(n.targets[0], ast.Name)]
+
+    def one(cands, what):
+        names = sorted(set(cands))
+        need(len(names) == 1, 'simple_dict_to_object: %s not identified uniquely: %s' % (what, names))
+        return names[0]
+    roles = {'pkey': P}
+    g = [(n.targets[0].id, n.value.args[0].id) for n in inloop
+         if is_call(n.value, 'getattr') and len(n.value.args) == 3 and isinstance(n.value.args[0], ast.Name)
+         and getattr(n.value.args[1], 'id', None) == P and isinstance(n.value.args[2], ast.Constant) and n.value.args[2].value is None]
+    roles['ninst'] = one([a for a, _ in g], 'the member value (getattr(<object>, pkey, None))')
+    roles['cinst'] = one([b for _, b in g], 'the current object')
+    roles['indexes'] = one([n.targets[0].id for n in assigns if is_call(n.value, 'deque') and 'findall' in U(n.value)],
+                           'the deque of indexes')
+    roles['nidx'] = one([n.targets[0].id for n in inloop if U(n.value) == 'int(%s.popleft())' % roles['indexes']], 'the index')
+    m = [n for n in inloop if 'id(%s)' % roles['ninst'] in U(n.value)]
+    roles['_m'] = one([n.targets[0].id for n in m], 'the index map of the list')
+    bases = set()
+    for n in m:
+        for x in ast.walk(n.value):
+            if isinstance(x, ast.Name) and x.id not in (roles['ninst'], 'id'):
+                bases.add(x.id)
+    roles['idxmap'] = one(list(bases), 'the table of index maps')
+    roles['cidx'] = one([n.targets[0].id for n in inloop if U(n.value) in ('%s.get(%s, None)' % (roles['_m'], roles['nidx']),
+                                                                            '%s.get(%s)' % (roles['_m'], roles['nidx']))],
+                        'the position in the list')
+    ins = [n for n in ast.walk(loop) if isinstance(n, ast.Call) and isinstance(n.func, ast.Attribute) and n.func.attr == 'insert'
+           and getattr(n.func.value, 'id', None) == roles['ninst'] and len(n.args) == 2 and isinstance(n.args[1], ast.Name)]
+    roles['newval'] = one([n.args[1].id for n in ins], 'the inserted element')
+    ren = {v: k for k, v in roles.items()}
+    need(len(ren) == len(roles), 'simple_dict_to_object: two roles share one local: %s' % roles)
+    every = {x.id for x in ast.walk(fn) if isinstance(x, ast.Name)} | {a.arg for a in fn.args.args}
+    for old, new in ren.items():
+        need(new == old or new not in every or new in ren, 'simple_dict_to_object: renaming %s to %s would capture a name' % (old, new))
+
+    class R(ast.NodeTransformer):
+        def visit_Name(self, n):
+            return ast.copy_location(ast.Name(id=ren.get(n.id, n.id), ctx=n.ctx), n)
+    return ast.fix_missing_locations(R().visit(fn))
+
+
 def tr_strict(fn):
     """if nidx > len(ninst): raise ValidationError ... ; if nidx == len(ninst): ninst.append(...)"""
     def lenof(n):
@@ -554,7 +626,8 @@ def generate(repo):
          'RE_HTTP_ARRAY_INDEX = re.compile(<literal>) without flags')
     pattern = c.args[0].value
     cls = find_def(mod.body, 'SimpleDictDocument', ast.ClassDef)
-    sdo = find_def(cls.body, 'simple_dict_to_object')
+    sdo_src = find_def(cls.body, 'simple_dict_to_object')
+    sdo = normalise_walk(sdo_src)
     ots = find_def(cls.body, 'object_to_simple_dict')
     natural = tr_sort(mod, sdo)
     natkey_conv = tr_natural_key(mod) or 'conv_slice (* unused: the loop does not sort with _natural_key *)'
